@@ -22,7 +22,7 @@ EXTRA = {
     "C07-2": ["C08"], "C09-2": ["C10"], "C10-2": ["C11", "C19"], "C11-2": ["C19"], "C01-1": ["C15", "C17"],
     "C17-2": ["C15", "C01"], "C15-1": ["C01"], "C04-2": ["C15"], "C19-1": ["C15", "C04"], "C14-1": ["C10"],
     "C14-2": ["C17"], "C03-2": ["C04"], "C04-1": ["C18"], "C18-1": ["C04"], "C13-1": ["C10"], "C16-1": ["C15"],
-    "C19-2": ["C11"], "C12-2": ["C15"], "C02-1": ["C01"], "C05-6": ["C08"], "C11-5": ["C19"], "C10-6": ["C09"],
+    "C19-2": ["C11"], "C12-2": ["C15"], "C02-1": ["C01"], "C05-6": ["C08"], "C06-6": ["C19"], "C07-6": ["C15"], "C15-5": ["C17"], "C11-5": ["C19"], "C10-6": ["C09"],
 }
 
 
